@@ -20,6 +20,14 @@ json.dump({"id": i, "property": prop, "source": "independent sub-agent given onl
            "confirmed": {"demo_exit_clean": 0, "demo_exit_mutated": "non-zero", "imports": True,
                          "tests_run_with_mutant": tests, "tests_result": res}}, open(d + "/meta.json", "w"), indent=1)
 PY
+  # make the stored demonstration independent of the (temporary) worktree it was written in
+  python3 - "$D/demo.py" <<'PY'
+import re, sys
+f = sys.argv[1]
+s = open(f).read()
+s = re.sub(r'["\']/tmp/mut2?_C\d\d/?["\']', '(__import__("os").environ.get("TREE_UNDER_TEST", "/repo") + "/")', s)
+open(f, "w").write(s)
+PY
   echo "KEPT $ID"
 else
   echo "REJECTED $ID"
